@@ -525,6 +525,8 @@ func getArray[T any](
 		array = arr
 	case []T:
 		array = val
+	default:
+		return nil, NewErrUnexpectedType[[]T]("field", v)
 	}
 	if size != 0 && len(array) != size {
 		return nil, NewErrArraySizeMismatch(array, size)
@@ -589,6 +591,8 @@ func getNillableArray[T any](
 		}
 
 		array = arr
+	default:
+		return nil, NewErrUnexpectedType[[]immutable.Option[T]]("field", v)
 	}
 	if size != 0 && len(array) != size {
 		return nil, NewErrArraySizeMismatch(array, size)
